@@ -26,7 +26,6 @@ MODULES = {
     "text_c04": ("src/encoder/text.rs", K / "text_c04.rs"),
     "misc_c17": ("src/histogram.rs", K / "misc_c17.rs"),
     "registry_c06": ("src/registry.rs", K / "registry_c06.rs"),
-    "registry_c07": ("src/registry.rs", K / "registry_c07.rs"),
     "vec_c05": ("src/vec.rs", K / "vec_c05.rs"),
     "desc_c15": ("src/desc.rs", K / "desc_c15.rs"),
     "desc_c09": ("src/desc.rs", K / "desc_c09.rs"),
@@ -152,7 +151,7 @@ PLAN = {
     ),
     "C17": dict(
         title="Fallible APIs report bad input as Err and do not panic",
-        level="proof",
+        level="model_checking",
         maps=True,
         text=True,
         modules=["desc_c09", "vec_c05", "registry_c06", "text_c04", "hist_c08", "misc_c17"],
@@ -183,7 +182,7 @@ PLAN = {
     ),
     "C04": dict(
         title="Text exposition is a faithful, parseable rendering of the gathered state",
-        level="proof",
+        level="model_checking",
         text=True,
         modules=["text_c04"],
         verus=["c04_escape.rs"],
@@ -192,7 +191,7 @@ PLAN = {
     ),
     "C05": dict(
         title="A metric vector keeps exactly one child per distinct label-value tuple",
-        level="proof",
+        level="model_checking",
         maps=True,
         modules=["vec_c05"],
         crate_modules=["__vrec"],
@@ -202,7 +201,7 @@ PLAN = {
     ),
     "C10": dict(
         title="Concurrent use of a metric vector is linearizable",
-        level="proof",
+        level="model_checking",
         maps=True,
         modules=["vec_c05"],
         crate_modules=["__vrec"],
@@ -212,7 +211,7 @@ PLAN = {
     ),
     "C06": dict(
         title="Registry admission is exact and a failed registration leaves no trace",
-        level="proof",
+        level="model_checking",
         maps=True,
         modules=["registry_c06"],
         verus=[],
@@ -221,7 +220,7 @@ PLAN = {
     ),
     "C15": dict(
         title="Descriptor identity is structural",
-        level="proof",
+        level="model_checking",
         maps=True,
         modules=["desc_c15"],
         crate_modules=["__vrec"],
@@ -237,24 +236,6 @@ PLAN = {
         verus=[],
         functions=[],
         assumptions=["the argument is: (1) the accessor algebra (defaults, set/get, frame, take, from_*, LabelPair order) holds for BOTH data models -- the same harness text is compiled and proved under --no-default-features and under default features; (2) every model accessor called from feature-independent source is in that algebra (mechanical closure check tools/c16_closure.py); hence the same client code computes the same gather() structure and text bytes. Step (2)->conclusion is a paper argument (observational equivalence of two implementations of one abstract data type)", "derive(Debug) of MetricType (used for the `# TYPE` line through format!) prints the variant name in both models: assumed (std formatting is out of CBMC's reach here)", "the protobuf crate's MessageField / EnumOrUnknown wrappers are executed as compiled, not assumed"],
-    ),
-    "C07": dict(
-        title="gather() is complete, canonically ordered and deterministic",
-        level="proof",
-        maps=True,
-        modules=["registry_c06", "registry_c07"],
-        verus=[],
-        functions=[],
-        assumptions=[MAPS_ASSUMPTION, FMT_ASSUMPTION, SORT_ASSUMPTION, "collectors are harness structs emitting one family with one sample each (values symbolic over all f64); that the library's own metric types emit 'one sample per child with the descriptor's help/type' is the collect() contract of C10 (vectors) and value.rs (single metrics), not re-proved here", "hash seed / registration order = the two iteration orders of a two-element map (enumerated)"],
-    ),
-    "C14": dict(
-        title="A gathered family never mixes metric types",
-        level="proof",
-        maps=True,
-        modules=["registry_c06", "registry_c07", "model_c16"],
-        verus=[],
-        functions=[],
-        assumptions=[MAPS_ASSUMPTION, FMT_ASSUMPTION, SORT_ASSUMPTION, "that collectors of different kinds sharing name+help but differing in const-label values pass registration is the C06 admission contract (ids differ, dimension hashes agree)", "KNOWN FINDING KF-C14-1 (not repaired): gather merges such collectors into one family whose declared type is the first one iterated; see known_findings.json and DESIGN.md"],
     ),
     "C08": dict(
         title="Bucket counts follow 'value <= upper bound' for every input",
@@ -292,5 +273,8 @@ def inject_spec(pid: str, features: str = "plain"):
     return spec
 
 NOT_APPLICABLE = {
+    "C13": "ProtobufEncoder::encode delegates to the protobuf crate's write_length_delimited_to_writer over the generated proto/proto_model.rs; executing that runtime under Kani/CBMC on the smallest concrete family (name, type, one empty metric; kani/pb_c13.rs, kept but not registered) ran into the 15-minute limit for both harnesses (measured), the method cannot be stubbed per receiver type, and neither Verus nor Kani can take generated code plus a third-party runtime under contract; the only part within reach, check_metric_family's refusal of nameless/empty families, is discharged under C17 (text encoder harness c17_encode_every_metric_type_no_panic).",
+    "C07": "RegistryCore::gather does not finish under CBMC: with the collections shim, sort_by and format! replaced by their contracts, a registry holding ONE collector with ONE sample (c07_common_labels_order0) and two-collector scenarios each ran into the 60-minute limit (measured twice; moves of the ~200-byte Metric/MetricFamily structs through vectors and the string-keyed BTreeMap dominate). No contract on gather() can therefore be discharged here; the harness text is kept in kani/registry_c07.rs but is not registered. Verus cannot take the function (BTreeMap entry API, iterator adapters, closures).",
+    "C14": "same function as C07 (RegistryCore::gather merges families by name without looking at the type): out of CBMC's reach (measured, 60-minute limit). Reading the code shows the defect the property describes (a counter and a gauge sharing name and help are merged into one family whose declared type is that of the first collector iterated), but no check of this framework decides it, so it is neither claimed nor listed as a known finding; see DESIGN.md.",
     "C19": "quantifies over all make_static_metric! declarations: the code is a proc-macro token-stream generator (syn/quote); no contract on a token builder can express 'the generated item addresses child X', and checking a few fixed expansions has no symbolic input (DESIGN.md section 5 C19)",
 }
